@@ -7,6 +7,28 @@ LEAN_DIR = os.path.join(VERIF, 'lean')
 PY = '/venv/bin/python'
 STD_AXIOMS = {'propext', 'Classical.choice', 'Quot.sound'}
 
+def _scratch_root():
+    """One scratch directory per check run, removed when the main process exits: every temporary file of the run — of this
+    process, of forked workers (which leave through os._exit and never run their own atexit handlers) and of child processes
+    (translators, command-line runs; they inherit TMPDIR) — lives under it, so nothing piles up in /tmp."""
+    root = os.environ.get('VERIF_SCRATCH')
+    if root and os.path.isdir(root):
+        tempfile.tempdir = root
+        return root
+    root = tempfile.mkdtemp(prefix='i18n-verif-run.')
+    os.environ['VERIF_SCRATCH'] = root
+    os.environ['TMPDIR'] = root
+    tempfile.tempdir = root
+    import atexit
+    owner = os.getpid()
+    def _cleanup():
+        if os.getpid() == owner:
+            shutil.rmtree(root, ignore_errors=True)
+    atexit.register(_cleanup)
+    return root
+
+SCRATCH = _scratch_root()
+
 class Infra(Exception):
     """infrastructure failure: exit 2, never a VIOLATION"""
 
